@@ -103,6 +103,19 @@ let status = function Ok _ -> "ok" | Err -> "err" | Panic -> "panic" | UB -> "ub
 let be_of = function "be" -> true | "le" -> false | s -> raise (Bad ("bo " ^ s))
 let b2s b = if b then "true" else "false"
 
+(* C15: the body / parser the B* and P* operations work on *)
+let cur_body = ref (new_body false)
+let cur_parser = ref (new_parser (new_body false))
+let body_state () =
+  Printf.sprintf "sig=%s buf=%s nfds=%d" (hex_of_list !cur_body.bsig) (hex_of_list !cur_body.bbuf) (int_of_n !cur_body.bfds)
+let parser_state () =
+  let nx = match get_next_sig !cur_parser with Ok (Some s) -> hex_of_list s | Ok None -> "none" | o -> status o in
+  let left = match sigs_left !cur_parser with Ok n -> string_of_n n | o -> status o in
+  Printf.sprintf "next=%s left=%s" nx left
+let gres_str = function
+  | GVal v -> "ok " ^ String.concat " " (tok_of_val v)
+  | GWrongSig -> "wrongsig" | GEnd -> "end" | GErr -> "err"
+
 let eval (line : string) : string =
   let toks = Array.of_list (List.filter (fun s -> s <> "") (String.split_on_char ' ' line)) in
   let pos = ref 0 in
@@ -145,6 +158,40 @@ let eval (line : string) : string =
       let buf = list_of_hex (next ()) in
       (match op_unmarshal_t be offset nfds e buf with
        | Ok (x, n) -> Printf.sprintf "ok %s %s" (string_of_n n) (String.concat " " (tok_of_val x))
+       | o -> status o)
+  | "BNEW" -> cur_body := new_body (be_of (next ())); "ok " ^ body_state ()
+  | "BRESET" | "BPUSH" | "BPUSHV" | "BPUSHN" | "BOLD" | "BOLDS" ->
+      let bop =
+        match op with
+        | "BRESET" -> Reset
+        | "BPUSH" -> let t = erase (parse_ety (next ())) in Push (t, parse_val toks pos)
+        | "BPUSHV" -> let t = erase (parse_ety (next ())) in PushVariant (t, parse_val toks pos)
+        | "BPUSHN" -> let t = erase (parse_ety (next ())) in
+                      let k = int_of_string (next ()) in
+                      let items = List.init k (fun _ -> ()) |> List.map (fun () -> (t, parse_val toks pos)) in
+                      if k >= 2 && k <= 5 then PushN items else PushParams items
+        | "BOLD" -> PushOld (parse_val toks pos)
+        | _ -> let k = int_of_string (next ()) in
+               PushOlds (List.init k (fun _ -> ()) |> List.map (fun () -> parse_val toks pos)) in
+      let (b', ok) = step_body !cur_body bop in
+      cur_body := b';
+      (if ok then "ok " else "err ") ^ body_state ()
+  | "PNEW" -> cur_parser := new_parser !cur_body; "ok " ^ parser_state ()
+  | "PGET" ->
+      let e = parse_ety (next ()) in
+      (match get !cur_parser e with
+       | Ok (p', r) -> cur_parser := p'; gres_str r ^ " " ^ parser_state ()
+       | o -> status o)
+  | "PGETN" ->
+      let e = parse_ety (next ()) in
+      let k = int_of_string (next ()) in
+      (match get_n !cur_parser (List.init k (fun _ -> e)) with
+       | Ok (p', Some vs) -> cur_parser := p'; "ok " ^ String.concat " " (List.concat_map tok_of_val vs) ^ " " ^ parser_state ()
+       | Ok (p', None) -> cur_parser := p'; "fail " ^ parser_state ()
+       | o -> status o)
+  | "PGETP" ->
+      (match get_param !cur_parser with
+       | Ok (p', r) -> cur_parser := p'; gres_str r ^ " " ^ parser_state ()
        | o -> status o)
   | "SE" ->
       let be = be_of (next ()) in
